@@ -56,6 +56,11 @@ pub struct Txtpp {
     ///
     /// This is to track we don't unnecessarily process the same file twice in the first pass
     files: HashSet<AbsPath>,
+    /// Directories already scheduled for scanning
+    ///
+    /// A directory can be reached more than once (named twice, or through symbolic links, which
+    /// may even lead back to an ancestor). Each directory is scanned once.
+    dirs: HashSet<AbsPath>,
 }
 
 impl Txtpp {
@@ -93,6 +98,7 @@ impl Txtpp {
             send,
             recv,
             files: HashSet::new(),
+            dirs: HashSet::new(),
         };
 
         let result = runtime.run_internal();
@@ -129,7 +135,6 @@ impl Txtpp {
             })?;
         let mut dep_mgr = DepManager::new();
         let mut file_count = 0;
-        let _ = self.progress.add_total(inputs.subdirs.len());
 
         // schedule input files
         for file in inputs.files {
@@ -213,7 +218,6 @@ impl Txtpp {
                             p.as_path().to_path_buf()
                         }),
                     };
-                    let _ = self.progress.add_total(directory.subdirs.len());
                     for file in directory.files {
                         self.execute_file(file, true)?;
                     }
@@ -294,6 +298,10 @@ impl Txtpp {
     }
 
     fn execute_directory(&mut self, dir: AbsPath, recursive: bool) {
+        if !self.dirs.insert(dir.clone()) {
+            return;
+        }
+        let _ = self.progress.add_total(1);
         let _ = self
             .progress
             .print_status(verbs::SCANNING, &dir.to_string(), Color::Yellow, true);
